@@ -286,12 +286,26 @@ func TestIsolation(t *testing.T) {
 		w.targets = []*vlib.Target{vlib.NewTarget("t0", w.targetHandler), vlib.NewTarget("t1", w.targetHandler)}
 		defer w.targets[0].Close()
 		defer w.targets[1].Close()
+		// "stuckch" is a channel whose target neither accepts nor refuses (a host that stopped answering): an open
+		// towards it stays pending for minutes on the server
+		stuck, _ := vlib.NewStuckTarget()
+		stuckURL := "tcp://" + vlib.HostPort(vlib.Port())
+		if stuck != nil {
+			defer stuck.Close()
+			stuckURL = stuck.URL()
+		}
+		var pendingConns []net.Conn
+		defer func() {
+			for _, c := range pendingConns {
+				c.Close()
+			}
+		}()
 		cfg := vlib.PairConfig{Carrier: carrier, ClientInsecure: true,
 			// "deadch" is a channel whose target refuses connections (a port of the harness's range nobody listens on)
 			Channels: []vlib.ChannelSpec{{Name: "ch0", Target: w.targets[0].URL()}, {Name: "ch1", Target: w.targets[1].URL()},
-				{Name: "deadch", Target: "tcp://" + vlib.HostPort(vlib.Port())}},
+				{Name: "deadch", Target: "tcp://" + vlib.HostPort(vlib.Port())}, {Name: "stuckch", Target: stuckURL}},
 			// "nochan" is a listener for a channel the server does not have: requests for it are refused
-			Listeners: []vlib.ListenerSpec{{Channel: "ch0"}, {Channel: "ch1"}, {Channel: "nochan"}, {Channel: "deadch"}}}
+			Listeners: []vlib.ListenerSpec{{Channel: "ch0"}, {Channel: "ch1"}, {Channel: "nochan"}, {Channel: "deadch"}, {Channel: "stuckch"}}}
 		if startTLS || strings.Contains(carrier, "tls") || carrier == vlib.CarHTTPS {
 			cfg.ServerCert = &vlib.GetPKI().ServerGood
 		}
@@ -313,7 +327,7 @@ func TestIsolation(t *testing.T) {
 		}()
 		vlib.Tap.Reset()
 
-		maxOpen, sawConcurrentWrite, pauses, closesWhileActive, bursts, refusals := 0, false, 0, 0, 0, 0
+		maxOpen, sawConcurrentWrite, pauses, closesWhileActive, bursts, refusals, pendingOpens := 0, false, 0, 0, 0, 0, 0
 		fail := func(msg string) {
 			vlib.Rec.Violation(map[string]interface{}{"property": "C02", "carrier": carrier, "starttls": startTLS, "history": w.history, "problem": msg, "log": vlib.Tap.Tail(8)})
 			rt.Fatalf("C02 carrier=%s starttls=%v: %s\nhistory: %v\nlog: %v", carrier, startTLS, msg, w.history, vlib.Tap.Tail(8))
@@ -436,6 +450,22 @@ func TestIsolation(t *testing.T) {
 					rt.Skip("enough connections")
 				}
 				openMany(rt, rapid.IntRange(2, minInt(4, room)).Draw(rt, "k"), "concurrent opens")
+			},
+			"pendingOpen": func(rt *rapid.T) {
+				// somebody asks for the channel whose target does not answer: that open stays pending on the server, and
+				// stays that connection's own business - everything the other actions do afterwards must still make
+				// progress within the bound
+				if stuck == nil || len(pendingConns) >= 2 {
+					rt.Skip("no stuck target / enough pending opens")
+				}
+				c, err := w.pair.Dial("stuckch")
+				if err != nil {
+					fail("dial listener of the channel whose target does not answer: " + err.Error())
+				}
+				c.Write([]byte("anybody there?"))
+				pendingConns = append(pendingConns, c)
+				pendingOpens++
+				w.logf("pendingOpen #%d", len(pendingConns))
 			},
 			"refusedOpen": func(rt *rapid.T) {
 				// somebody asks for a channel the server does not offer while the others are busy: the refusal must
@@ -568,6 +598,9 @@ func TestIsolation(t *testing.T) {
 		}
 		if bursts > 0 {
 			labels = append(labels, "burst")
+		}
+		if pendingOpens > 0 {
+			labels = append(labels, "open-pending-on-an-unanswering-target")
 		}
 		if refusals > 0 {
 			labels = append(labels, "refused-open-among-others")
